@@ -50,7 +50,7 @@ def valid(s):
     try:
         Version.from_string(s)
         return True
-    except ValueError:
+    except Exception:  # noqa  (a wrong exception type is reported by the C03 statement, not here)
         return False
 
 
